@@ -8,6 +8,14 @@ class Coded(Exception):
     code = 3
 
 
+class CodedText(Exception):
+    code = "invalid"
+
+
+class CodedNone(Exception):
+    code = None
+
+
 def lt():
     return chr(60)
 
@@ -41,6 +49,10 @@ def make_exception(spec):
         return KeyError(msg)
     if t == "Coded":
         return Coded(msg)
+    if t == "CodedText":
+        return CodedText(msg)
+    if t == "CodedNone":
+        return CodedNone(msg)
     if t == "CannotParse":
         return CannotParseArgsException(msg)
     if t == "NoSuchOption":
